@@ -108,6 +108,18 @@ def run(ctx):
                     "component swapped with/without recomputed root and headerHash, each AuxPoW part changed with/without re-mined donor header, seal "
                     "reused for a header differing in one field) replayed on the real entry points; expected verdicts from the specification, hashes "
                     "compared with an independent transcription of SealEncode / Header.SealEncode")
+    # the body is bound into the sealed header through DeriveSha roots (transactions, outbound ETXs, uncles, manifest, interlink): a root that
+    # does not commit to EVERY element of its list lets one seal serve two bodies.  Lists around the index-encoding boundaries (126..130, 255..257)
+    # and random ones: the streaming root must be the root of the reference trie of index -> item (independent yellow-paper implementation)
+    tdrv = vlib.go_build("triedrv")
+    nl = 40 if quick else 400
+    p = vlib.run([tdrv, "derive", "-seed", ctx.seed, "-n", nl], timeout=3000, check=True)
+    dj = json.loads(p.stdout.strip().splitlines()[-1])
+    if dj["lists"] != nl:
+        raise Broken("derive ran %d of %d lists" % (dj["lists"], nl))
+    for m in dj["mismatches"] or []:
+        vlib.report(ctx, {"kind": "body-root-does-not-commit-to-the-whole-list", "len": m.get("len")}, {"derive": m, "driver_seed": ctx.seed, "n": nl})
+    cov.update(body_root_lists=dj["lists"], body_root_items=dj["items"])
     vlib.write_evidence(ctx, "exploration", cov, ASSUMPTIONS)
 
 
